@@ -91,6 +91,7 @@ type Sim struct {
 	// Checkpoint right before they tear the system down, so that a panic of a system goroutine
 	// during shutdown cannot take the finished run's verdict with it.
 	checkpoint func(RunInfo)
+	note       func(string)
 
 	expired atomic.Bool // set by the worker's wall-clock watchdog (real time, outside the bubble)
 
@@ -346,6 +347,15 @@ func (s *Sim) Freeze() {
 	s.mu.Unlock()
 }
 func (s *Sim) SetCheckpoint(f func(RunInfo)) { s.checkpoint = f }
+
+// Note tells the runner a fact about the run in progress that it needs even if the process dies
+// before the run is over (for instance: a node has been restarted).
+func (s *Sim) Note(tag string) {
+	if s.note != nil {
+		s.note(tag)
+	}
+}
+func (s *Sim) SetNote(f func(string)) { s.note = f }
 
 func (s *Sim) Expired() bool { return s.expired.Load() }
 func (s *Sim) Expire()       { s.expired.Store(true) }
